@@ -106,7 +106,11 @@ func runNested(c *core.Ctx, idx int) {
 	detail := map[string]interface{}{"case": desc, "trace_tail": traceTail(tr, 50)}
 	switch verdict {
 	case "stuck":
-		c.Violation("stuck:nested-wait-with-idle-worker", fmt.Sprintf("AddEventAndWait does not return: %d queued task(s), every worker is either parked in Cond.Wait or blocked in a nested AddEventAndWait inside an action, at least one is parked, no AddTask in flight", queued(tr, pool)), stream, idx, detail)
+		if queued(tr, pool) == 0 {
+			c.Violation("stuck:nested-wait-nothing-left", "AddEventAndWait does not return: nothing is queued, every worker is parked in Cond.Wait or blocked in a nested AddEventAndWait inside an action, no AddTask in flight and no goroutine able to take a step - the notification the waiters wait for can never come", stream, idx, detail)
+		} else {
+			c.Violation("stuck:nested-wait-with-idle-worker", fmt.Sprintf("AddEventAndWait does not return: %d queued task(s), every worker is either parked in Cond.Wait or blocked in a nested AddEventAndWait inside an action, at least one is parked, no AddTask in flight", queued(tr, pool)), stream, idx, detail)
+		}
 		pool.WaitAll()
 		select {
 		case <-done:
@@ -153,10 +157,12 @@ func queued(tr *sched.Tracer, pool interface{}) int {
 	return n
 }
 
-// nestedStuck: every live worker is parked idle (Cond.Wait) or blocked in a
-// WaitGroup below AddEventAndWait (a nested wait inside an action); at least
-// one is parked idle; at least one task is queued; no AddTask in flight; the
-// outer waiter is blocked in its wait; the logical clock did not move.
+// nestedStuck: every live worker is parked idle (Cond.Wait) or blocked in the
+// wait of AddEventAndWait (a nested wait inside an action); no AddTask is in
+// flight; the outer waiter is blocked in its wait; no goroutine can take a
+// step; the logical clock did not move. Then either a task is queued next to an
+// idle worker (a lost wake-up) or nothing is queued at all (nobody is left who
+// could ever deliver the notification the waiters wait for).
 func nestedStuck(tr *sched.Tracer, pool interface{}, waiter uint64) bool {
 	seq0 := tr.Now()
 	evs := tr.Snapshot()
@@ -167,10 +173,11 @@ func nestedStuck(tr *sched.Tracer, pool interface{}, waiter uint64) bool {
 	if wc, ok := pool.(interface{ WorkerCount() int }); ok && wc.WorkerCount() != len(v.LiveWorkers) {
 		return false
 	}
-	if queued(tr, pool) < 1 {
-		return false
-	}
+	nq := queued(tr, pool)
 	d := sched.Dump() // states and stacks from one dump
+	inWait := func(g uint64) bool {
+		return sched.BlockedIn(d, g, waitStates, "AddEventAndWait") && strings.HasSuffix(sched.InnermostNonRuntime(d, g), ".AddEventAndWait")
+	}
 	idle := 0
 	for g := range v.LiveWorkers {
 		p := v.LastPoint[g]
@@ -178,12 +185,18 @@ func nestedStuck(tr *sched.Tracer, pool interface{}, waiter uint64) bool {
 			idle++
 			continue
 		}
-		if p == "pool.get.popped" && sched.BlockedIn(d, g, sched.WaitGroupStates, "sync.(*WaitGroup).Wait", "AddEventAndWait") {
+		if p == "pool.get.popped" && inWait(g) {
 			continue
 		}
 		return false
 	}
-	if idle == 0 || waiter == 0 || !sched.BlockedIn(d, waiter, sched.WaitGroupStates, "sync.(*WaitGroup).Wait", "AddEventAndWait") {
+	if waiter == 0 || !inWait(waiter) {
+		return false
+	}
+	if nq >= 1 && idle == 0 {
+		return false // tasks are queued but every worker waits: no worker is available
+	}
+	if sched.CanStep(d, sched.GoID()) {
 		return false
 	}
 	return tr.Now() == seq0
